@@ -245,6 +245,19 @@ class XsdIdentity(XsdComponent):
                     self.elements[e] = [FieldValueSelector(f, e) for f in self.fields]
                     e.selected_by.add(self)
 
+            if isinstance(base_element, XPathElement):
+                # A type substitution (xsi:type) below the element that holds the
+                # identity: the selector is not relative to the base element, so
+                # match the leaf names with the local elements of the new content.
+                name = qname.rpartition(':')[2]
+                for e in base_element.iter():
+                    if isinstance(e, elements_module.XsdElement) and e.local_name == name:
+                        if e.ref is not None:
+                            e = e.ref
+                        if e not in self.elements:
+                            self.elements[e] = [FieldValueSelector(f, e) for f in self.fields]
+                            e.selected_by.add(self)
+
     def get_counter(self, elem: ElementType) -> 'IdentityCounter':
         return IdentityCounter(self, elem)
 
